@@ -128,8 +128,7 @@ func checkCase(c Case) (Outcome, error) {
 	if err != nil {
 		return out, fmt.Errorf("harness: %v", err)
 	}
-	empty := schema.New(base.Name)
-	schema.NewRealm(empty)
+	empty := gm.Empty(c.Dialect, base)
 	differ := gm.Differ(c.Dialect)
 	var changes []schema.Change
 	switch c.Scenario {
